@@ -75,3 +75,9 @@ Example C06_source_is_mask_is_model : _ := is_mask_is_source.
 Print Assumptions C06_source_is_mask_is_model.
 Example C06_source_is_mask_by_class : _ := g_is_mask_eqs.
 Print Assumptions C06_source_is_mask_by_class.
+
+(* ---- tie C: the sweep a conjunction of masks runs, Intersection._sweep with its _SourceState, as the code has
+   it (translation of the source text; every pass of its loop is there, none is capped) ---- *)
+From CG Require Import Proofs.GenEq6.
+Example C06_source_intersection_is_model : _ := g_inter_sweep_eq.
+Print Assumptions C06_source_intersection_is_model.
